@@ -290,3 +290,116 @@ class C12(DerivePlugin):
         recs = case[0][0]
         allu = {u for r in recs for u in [r[1], *r[3]]}
         return any(b in allu for _, b in m) or bool({a for a, _ in m} & {b for _, b in m})
+
+
+# ---------------------------------------------------------------- C10
+def snapshot(c, strs, pairs):
+    return [
+        [qprops.v_record(r) for r in c.records],
+        sorted(c.get_prefixes(include_synonyms=True)), sorted(c.get_uri_prefixes(include_synonyms=True)),
+        qprops.v_dict(c.bimap), qprops.v_dict(c.prefix_map), qprops.v_dict(c.reverse_prefix_map), qprops.v_dict(c.synonym_to_prefix),
+        qprops.v_dict(c.pattern_map), sorted(c.trie.items()), c.delimiter,
+        qprops.battery(c, strs, pairs),
+    ]
+
+
+class C10(DerivePlugin):
+    pid = "C10"
+    entry = 10
+    prop = 10
+    counts = {"quick": 1200, "thorough": 40000}
+    rule = ("case = (strict input converter(s), one of chain / get_subconverter / remap_curie_prefixes / remap_uri_prefixes / rewire / "
+            "discover(converter=...), then 0..4 follow-up add_record / add_prefix calls (mostly merge=True, overlapping the derived records) on the "
+            "derived converter). Every input is snapshotted (records, get_prefixes, get_uri_prefixes, bimap, the four index dictionaries, trie "
+            "items, battery answers) before the call and compared after the call and after every follow-up step; id()-sharing of Record objects "
+            "between result and inputs is recorded. Non-trivial: the derivation merged / renamed / re-pointed a record and a follow-up merged into "
+            "a derived record.")
+
+    def generate(self, rng, n):
+        for _ in range(n):
+            kind = rng.choice(["chain", "sub", "curie", "uri", "rewire", "discover"])
+            is_disc = 0
+            extra_disc = []
+            if kind == "chain":
+                inputs = overlapping_converters(rng, rng.choice([1, 2, 2, 3]))
+                op = [0, int(rng.random() < 0.6)]
+            else:
+                recs = qprops.gen_records(rng, rng.choice([1, 2, 3, 4]), cps=[p for p in qprops.CP_POOL if p])
+                inputs = [recs]
+                if kind == "sub":
+                    allp = [p for r in recs for p in [r[0], *r[2]]]
+                    op = [1, [p for p in allp if rng.random() < 0.6]]
+                elif kind == "curie":
+                    op = [2, gen_curie_remapping(rng, recs)]
+                elif kind == "uri":
+                    op = [3, gen_uri_mapping(rng, recs, False)]
+                elif kind == "rewire":
+                    op = [4, gen_uri_mapping(rng, recs, True)]
+                else:
+                    is_disc = 1
+                    op = [0, 1]
+                    base = [r[1] for r in recs] + ["http://new.org/a/", "http://new.org/b#"]
+                    extra_disc = [rng.choice(base) + rng.choice(["1", "2", "x", "a_b", "007"]) for _ in range(rng.randint(0, 8))]
+            allrecs = [r for recs in inputs for r in recs]
+            follow = []
+            from .plug_mutate import gen_op
+
+            for _ in range(rng.choice([0, 1, 2, 3, 4])):
+                o = gen_op(rng, allrecs, ":")
+                if rng.random() < 0.8:
+                    o[2] = 1  # merge=True
+                follow.append(o)
+            strs, pairs = self.probes(rng, inputs)
+            yield [[inputs, op, strs, pairs, []], 1 + len(follow), is_disc, [follow, extra_disc]]
+
+    def observe(self, case):
+        import curies
+        from curies.discovery import discover
+
+        (inputs, op, strs, pairs, _), nsteps, is_disc, (follow, uris) = case
+        ft = fold_table([s for recs in inputs for s in case_strings(recs)])
+        case = [[inputs, op, strs, pairs, ft], nsteps, is_disc, [follow, uris]]
+        convs = [curies.Converter(qprops.mk_records(recs)) for recs in inputs]
+        before = [snapshot(c, strs, pairs) for c in convs]
+        ids = {id(r) for c in convs for r in c.records}
+
+        def flags():
+            return [int(snapshot(c, strs, pairs) == b) for c, b in zip(convs, before)]
+
+        try:
+            if is_disc:
+                R = discover(list(uris), converter=convs[0])
+            else:
+                R = run_op(convs, op)
+        except Exception as e:
+            return case, [err_code(e), [flags()], 0]
+        steps = [flags()]
+        shared = int(any(id(r) in ids for r in R.records))
+        for rec, cs, mg, ap in follow:
+            p, u, ps, us, pat = rec
+            try:
+                if ap:
+                    R.add_prefix(p, u, list(ps), list(us), case_sensitive=bool(cs), merge=bool(mg))
+                else:
+                    R.add_record(curies.Record(prefix=p, uri_prefix=u, prefix_synonyms=list(ps), uri_prefix_synonyms=list(us),
+                                               pattern=pat.v if pat else None), case_sensitive=bool(cs), merge=bool(mg))
+            except Exception:
+                pass
+            steps.append(flags())
+        return case, [0, steps, shared]
+
+    def nontrivial(self, case, obs):
+        return obs[0] == 0 and len(obs[1]) >= 2
+
+    def stats(self, case, obs, acc):
+        h = acc.setdefault("op_hist", {})
+        k = "discover" if case[2] else OPS[case[0][1][0]]
+        h[k] = h.get(k, 0) + 1
+        acc["follow_up_steps"] = acc.get("follow_up_steps", 0) + len(case[3][0])
+
+    def sample(self, case, obs):
+        return {"inputs": plain(case[0][0]), "op": "discover" if case[2] else OPS[case[0][1][0]], "arg": plain(case[0][1][1]),
+                "follow_ups": plain(case[3][0][:2]), "observed": plain(obs)}
+
+    def explain(self, case, obs, model):
+        return {"impl [code, per-step per-input unchanged flags, shares Record objects]": plain(obs), "model": plain(model)}
